@@ -1,10 +1,18 @@
-import ElkVerif.Model.Lex
-import ElkVerif.Model.Regex.Transpile
+import ElkVerif.Proofs.Lex
+import ElkVerif.Proofs.TokWin
+import ElkVerif.Proofs.RegexTotal
 /-!
-# C03 — The front end is total  (stage 0)
+# C03 — The front end is total
 
-Only the regex transpiler model and the lexer's cursor machine are modelled. For the Elk lexer, parser, macro
-expander and checker proper there is no model: they are covered by the search in checks/c03.py.
+What is a theorem here, and about what:
+* the regex TRANSPILER model (`Model/Regex/Transpile.lean`, tied to `regex/transpile.go` by C21's correspondence) is a
+  total function — Lean accepted it without fuel — and never takes its one panic path on trees the parser accepts;
+* the lexer's cursor machine (`Model/Lex.lean`) makes progress: every emitted token consumes at least one byte, so a
+  run emits at most `|src|` tokens;
+* panic-mode `synchronise` of the parser's token window (`Model/TokWin.lean`) stops within the remaining tokens, at
+  END_OF_FILE or at a statement separator.
+For the Elk lexer, parser, macro expander and checker proper there is NO model and no theorem: they are covered only by
+the crash/hang search of checks/c03.py.
 -/
 namespace Elk.C03
 open Elk.Lex
@@ -18,5 +26,44 @@ theorem emit_progress (typ : Nat) (c : Cur) (h : c.start < c.cursor) :
   by_cases he : c.cursor - 1 = c.start
   · simp [he]
   · simp [he]; omega
+
+/-- **lex_progress.** Any precondition-respecting run of the cursor machine over `src` emits at most `|src|` tokens
+(they are non-empty, disjoint and inside the input): the token loop of `Lex`/`Colorize` terminates. -/
+theorem lex_progress (src : Bytes) (ops : List Op) (hg : Guarded src Cur.init ops) :
+    (run src Cur.init ops).2.length ≤ src.length := by
+  have h := (guarded_run src Cur.init ops ⟨0, 0, rfl, rfl, Nat.le_refl _, At.zero, At.zero⟩ hg).2.1
+  have := spansOkFrom_count src.length _ _ h
+  simpa [Cur.init] using this
+
+open Elk.TokWin in
+/-- **sync_progress.** `synchronise` consumes `syncSteps toks ≤ |toks|` tokens and then stands either at END_OF_FILE
+(answer `false`, nothing left) or at a `NEWLINE`/`;` (answer `true`): panic-mode recovery terminates. -/
+theorem sync_progress (toks : List Ty) :
+    (synchronise toks).2 = toks.drop (syncSteps toks) ∧ syncSteps toks ≤ toks.length ∧
+    (((synchronise toks).1 = false ∧ (synchronise toks).2 = []) ∨
+     ((synchronise toks).1 = true ∧ ∃ t rest, (synchronise toks).2 = t :: rest ∧ (t = .newline ∨ t = .semicolon))) :=
+  sync_spec toks
+
+open Elk.TokWin in
+/-- `matchOk` answers "no token" exactly on a mismatch — the case `closureAfterArrow` dereferenced before the fix. -/
+theorem matchOk_none_iff (w : Win) (tys : List Ty) : (matchOk w tys).1 = none ↔ accept w tys = false :=
+  matchOk_none w tys
+
+open Elk.Regex in
+/-- **regex_total.** The transpiler model is a total function into `ok | errs | panic`, and `panic` (Go:
+`asciiLetterIndex` on a non-letter) is impossible when every `\cX` names an ASCII letter — which the parser enforces
+by reporting an error otherwise (so `Transpile` is not reached). -/
+theorem regex_total (r : Node) (f : Flags) (h : caretOk r = true) :
+    (∃ out, transpile r f = .ok out) ∨ (∃ msgs, transpile r f = .errs msgs) := by
+  have hp := transpile_no_panic r f h
+  cases hr : transpile r f with
+  | ok out => exact Or.inl ⟨out, rfl⟩
+  | errs msgs => exact Or.inr ⟨msgs, rfl⟩
+  | panic => exact absurd hr hp
+
+/-- the hypothesis of `regex_total` is met by trees without caret escapes, e.g. `[a\W]+` … -/
+example : Elk.Regex.caretOk (.oneOrMore (.charClass (.cons (.char 97) (.cons .notWord .nil)) false) false) = true := by decide
+/-- … and the panic path is real in the model: `\c1` would panic (the parser rejects it first). -/
+example : Elk.Regex.transpile (.caretEscape 49) {} = .panic := by decide
 
 end Elk.C03
